@@ -10,7 +10,7 @@ JPEG = b'\xff\xd8\xff\xe0\x00\x10JFIF\x00\x01\x01\x00\x00\x01\x00\x01\x00\x00' +
 T0 = datetime(2021, 5, 6, 7, 8, 9, tzinfo=timezone.utc)
 
 KINDS = ['doc-bytes', 'doc-str', 'doc-empty', 'literal-b', 'literal-u', 'literal-t', 'cleartext', 'cleartext-blank', 'cleartext-ws', 'none', 'uid-self', 'uid-other', 'ua-self', 'ua-other',
-         'key-direct-self', 'key-direct-other', 'revoke-key', 'revoke-subkey', 'revoke-uid', 'bind', 'bind-ecdh', 'revoker', 'attest']
+         'key-direct-self', 'key-direct-other', 'revoke-key', 'revoke-subkey', 'revoke-uid', 'bind', 'bind-ecdh', 'bind-ecdh-kdf', 'revoke-ecdh-kdf', 'revoker', 'attest']
 
 HASHES = {'MD5': 1, 'SHA1': 2, 'SHA224': 11, 'SHA256': 8, 'SHA384': 9, 'SHA512': 10}
 
@@ -146,6 +146,23 @@ def pgpy_triple(signer, kind, hashname=None, opts=None, level=None):
             o2 = dict(opts)
             o2.setdefault('usage', {KeyFlags.EncryptCommunications, KeyFlags.EncryptStorage})
             t.sig, t.subject, t.refsubj = k.bind(sk, **o2), list(pub.subkeys.values())[1], {'primary': prim, 'subkey': subs[1]}
+        elif kind in ('bind-ecdh-kdf', 'revoke-ecdh-kdf'):
+            # an ECDH subkey whose KDF parameters are NOT the curve's defaults (legal, RFC 6637 9), bound / revoked through the SECRET key object: what is
+            # signed is the subkey as it is, parameters included
+            from pgpy.constants import KeyFlags
+            sn = ['cv25519_1+kdf10.9', 'ecdh_p256_1+kdf10.9', 'ecdh_p384_0+kdf8.7'][len(signer) % 3]
+            k2 = pool.pgpy_key(signer, uid='Signer ' + signer, sub=sn, sub_usage={KeyFlags.EncryptCommunications, KeyFlags.EncryptStorage}, fresh=True)
+            sk = list(k2.subkeys.values())[0]
+            spub = RK.pub_body(pool.mat(sn))
+            if kind == 'bind-ecdh-kdf':
+                o2 = dict(opts)
+                o2.setdefault('usage', {KeyFlags.EncryptCommunications, KeyFlags.EncryptStorage})
+                sg = k2.bind(sk, **o2)
+            else:
+                sg = k2.revoke(sk, **opts)
+            t.priv, t.key = k2, k2.pubkey
+            t.keepalive.append(t.key)
+            t.sig, t.subject, t.refsubj = sg, list(t.key.subkeys.values())[0], {'primary': prim, 'subkey': spub}
         elif kind == 'revoker':
             other = target_key()
             t.sig, t.subject, t.refsubj = k.revoker(other.pubkey, **opts), pub, {'primary': prim}
